@@ -67,6 +67,7 @@ type variant struct {
 	prune         int
 	backend       string
 	crashRollback bool // Rollback replaced by abandoning the handle and reopening
+	failedSaves   bool // some saves first fail (injected batch write error) after extra junk edits, are rolled back and redone
 	excursions    bool // after some saves: LoadVersion(older) then Load()
 }
 
@@ -111,6 +112,7 @@ type stats struct {
 	imports, importCont, excursions, crashRollbacks, emptyImports, toggles int64
 	variants                                                               map[string]int
 	walks                                                                  int64
+	failedSaves                                                            int64
 }
 
 func (s *stats) add(f func()) { s.mu.Lock(); f(); s.mu.Unlock() }
@@ -136,7 +138,46 @@ func (r *runner) openDB() {
 	r.db = memdb.NewMemDB()
 }
 
+// failDB makes the next batch write fail once when armed (an I/O error at commit time).
+type failDB struct {
+	dbm.DB
+	armed *bool
+}
+
+type failBatch struct {
+	dbm.Batch
+	armed *bool
+}
+
+var errInjected = fmt.Errorf("injected batch write error")
+
+func (b failBatch) Write() error {
+	if *b.armed {
+		*b.armed = false
+		return errInjected
+	}
+	return b.Batch.Write()
+}
+
+func (b failBatch) WriteSync() error {
+	if *b.armed {
+		*b.armed = false
+		return errInjected
+	}
+	return b.Batch.WriteSync()
+}
+
+func (d failDB) NewBatch() dbm.Batch { return failBatch{d.DB.NewBatch(), d.armed} }
+func (d failDB) NewBatchWithSize(n int) dbm.Batch {
+	return failBatch{d.DB.NewBatchWithSize(n), d.armed}
+}
+
 func (r *runner) open() {
+	if r.v.failedSaves {
+		if _, ok := r.db.(failDB); !ok {
+			r.db = failDB{r.db, new(bool)}
+		}
+	}
 	var opts []bptree.Option
 	if r.fast {
 		opts = append(opts, bptree.FastIndexOption(true))
@@ -195,6 +236,9 @@ func (v variant) dims() string {
 	}
 	if v.excursions {
 		d = append(d, "excursions")
+	}
+	if v.failedSaves {
+		d = append(d, "failedsaves")
 	}
 	if len(d) == 0 {
 		return "base"
@@ -272,6 +316,40 @@ func (r *runner) replay(from, to int, latest int64) int64 {
 				r.tree.Rollback()
 			}
 		case bpgen.OpSave:
+			if fd, ok := r.db.(failDB); ok && r.rng.IntN(3) == 0 {
+				// detour: junk edits on top of the pending ones, a save that fails at the batch write,
+				// rollback, the version's own edits again (the logical history is unchanged)
+				for k := 1 + r.rng.IntN(3); k > 0; k-- {
+					j := r.rng.IntN(i + 1)
+					if o := b.h.Ops[j]; o.Kind == bpgen.OpSet || o.Kind == bpgen.OpRemove {
+						r.tree.Set(append([]byte{}, o.Key...), []byte{0xde, 0xad, byte(r.rng.IntN(256))})
+					}
+				}
+				*fd.armed = true
+				if _, _, err := r.tree.SaveVersion(); err == nil {
+					*fd.armed = false
+					r.violation("replay:injected-save-error-not-reported:"+r.v.dims(), "op %d: SaveVersion returned nil although the batch write failed", i)
+					return latest
+				}
+				*fd.armed = false
+				r.tree.Rollback()
+				start := 0
+				for j := i - 1; j >= 0; j-- {
+					if k := b.h.Ops[j].Kind; k == bpgen.OpSave || k == bpgen.OpRollback || k == bpgen.OpLoadVersion || k == bpgen.OpReopen {
+						start = j + 1
+						break
+					}
+				}
+				for j := start; j < i; j++ {
+					switch o := b.h.Ops[j]; o.Kind {
+					case bpgen.OpSet:
+						r.tree.Set(append([]byte{}, o.Key...), append([]byte{}, o.Val...))
+					case bpgen.OpRemove:
+						r.tree.Remove(append([]byte{}, o.Key...))
+					}
+				}
+				r.st.add(func() { r.st.failedSaves++ })
+			}
 			hash, ver, err := r.tree.SaveVersion()
 			if err != nil {
 				r.violation("replay:save-error:"+r.v.dims(), "op %d save: %v", i, err)
@@ -689,6 +767,8 @@ func run(c *vf.Ctx) {
 			{name: "fasttoggle", cache: 10000, fast: fastToggle, reopenEvery: 1 + i%2, backend: "memdb"},
 			{name: "reopen", cache: 10000, reopenEvery: ks[i%4], backend: "memdb"},
 			{name: "prune", cache: 10000, prune: 1 + i%3, backend: "memdb"},
+			{name: "failedsaves", cache: []int{16, 64, 10000}[i%3], backend: "memdb", failedSaves: true},
+			{name: "failedsaves-fast", cache: 10000, fast: fastOn, prune: i % 3, backend: "memdb", failedSaves: true},
 			{name: "combo", cache: []int{0, 1, 64, 10000}[rng.IntN(4)], fast: rng.IntN(3), reopenEvery: rng.IntN(4), prune: rng.IntN(4),
 				backend: "memdb", crashRollback: rng.IntN(2) == 0, excursions: true},
 			{name: "combo2", cache: []int{0, 1, 64}[rng.IntN(3)], fast: fastOn, reopenEvery: 1 + rng.IntN(3), prune: 1 + rng.IntN(3),
@@ -739,6 +819,8 @@ func run(c *vf.Ctx) {
 	c.Count("old_version_excursions", int(st.excursions))
 	c.Count("crash_restart_rollbacks", int(st.crashRollbacks))
 	c.Count("independent_root_hash_recomputations", int(st.walks))
+	c.Count("failed_saves_injected", int(st.failedSaves))
+	c.RequireCounter("failed_saves_injected", 20)
 	c.Count("base_versions", int(totalVersions))
 	c.Count("base_leaf_count_growth", int(totalSplits))
 	c.Count("histories_reaching_height_3", int(h3))
